@@ -206,6 +206,12 @@ func remoteSchedule(res *Result, bin, base, name, prop string, seed int64) *sche
 	if name == "release-with-executor-gone" {
 		script, expected = quickScript, quickOutput
 	}
+	if name == "kill-submitter-final-status-short-output" {
+		// a large burst right before the payload exits: the status mirror (one small round trip a second) reports the
+		// final state and size while the stdout copy is still under way
+		script = "sleep 1\nhead -c 60000000 /dev/zero | tr '\\0' 'x'\necho\n"
+		expected = strings.Repeat("x", 60000000) + "\n"
+	}
 	// ---- submit at S for execution at E
 	k := &Know{Node: "n2", ToldState: -1}
 	if !submit(p.s, k, script, func(a, b string) { step("%s %s", a, b) }) {
@@ -273,6 +279,57 @@ func remoteSchedule(res *Result, bin, base, name, prop string, seed int64) *sche
 			} else {
 				viol("remote-mirror-stalls", "60 s after E's unit %s finished (link up again) S reports State %d StdoutSize %d and has %d of %d output bytes",
 					rid, daemon.Num(ms, "State"), daemon.Num(ms, "StdoutSize"), stdoutLen(p.s, id), len(expected))
+			}
+		}
+	case "kill-submitter-final-status-short-output":
+		// RemoteUnit.tla: CrashS in the state "status final, output short", then RestartS: the stdout monitor must be back at
+		// work (MirrorNeverAbandoned) and the output must become complete (OutputEventuallyComplete)
+		caught := false
+		for t0 := time.Now(); time.Since(t0) < 120*time.Second; time.Sleep(5 * time.Millisecond) {
+			disk := readStatusFile(p.s, id)
+			if disk != nil && daemon.Num(disk, "State") == 2 {
+				if have := stdoutLen(p.s, id); have < daemon.Num(disk, "StdoutSize") {
+					p.killS()
+					step("S killed with State 2, StdoutSize %d recorded, %d bytes local", daemon.Num(disk, "StdoutSize"), have)
+					caught = true
+				}
+
+				break
+			}
+		}
+		if !caught {
+			res.note(fmt.Sprintf("[sched %s] the window 'status final, output short' was not hit", name))
+			res.count("remote_schedule_window_missed", 1)
+
+			break
+		}
+		time.Sleep(500 * time.Millisecond)
+		if err := p.restartS(); err != nil {
+			inconc("restart S: %v", err)
+
+			return sr
+		}
+		step("S restarted")
+		if !routeBack() {
+			inconc("route did not come back")
+
+			return sr
+		}
+		// status and list look right at once; the output has to follow
+		ms, _, ok := statusUntil(p.s, id, 90*time.Second, func(m map[string]any, _ string) bool {
+			return m != nil && daemon.Num(m, "State") == 2 && stdoutLen(p.s, id) >= daemon.Num(m, "StdoutSize")
+		})
+		if !ok {
+			viol("remote-output-incomplete-after-restart", "unit %s was recorded Succeeded with StdoutSize %d when S died with %s; 90 s after the restart (route to n2 up, E still has unit %s) the local output has %d bytes: the rest is never fetched, 'work results' would deliver a prefix and not end",
+				id, daemon.Num(ms, "StdoutSize"), sr.Steps[len(sr.Steps)-2], rid, stdoutLen(p.s, id))
+		} else {
+			c, err := p.s.Dial(20 * time.Second)
+			if err == nil {
+				_, data, closed, _ := c.Results(id, 0, 120*time.Second)
+				c.Close()
+				if !closed || len(data) != len(expected) {
+					viol("remote-results-incomplete-after-restart", "work results of %s returned %d of %d bytes (stream closed: %v)", id, len(data), len(expected), closed)
+				}
 			}
 		}
 	case "restart-submitter-during-monitoring":
@@ -500,7 +557,7 @@ func stdoutLen(d *daemon.Daemon, id string) int64 {
 	return fi.Size()
 }
 
-var remoteScheduleNames = []string{"cut-during-monitoring", "restart-submitter-during-monitoring", "cancel-while-disconnected", "cancel-then-restart-submitter", "release-while-disconnected", "release-with-executor-gone"}
+var remoteScheduleNames = []string{"cut-during-monitoring", "restart-submitter-during-monitoring", "kill-submitter-final-status-short-output", "cancel-while-disconnected", "cancel-then-restart-submitter", "release-while-disconnected", "release-with-executor-gone"}
 
 // remoteSchedules runs the named schedules in parallel and returns their descriptions and trace files.
 func remoteSchedules(res *Result, bin, base, prop string, names []string, seed int64) []*schedResult {
